@@ -110,6 +110,8 @@ func (o Op) Coq() string {
 			c = fmt.Sprintf("CMove %s %d", natList(o.Ps), o.Mb)
 		case "fetchbody":
 			c = fmt.Sprintf("CFetchBody %s", natList(o.Ps))
+		case "fetchflagsbody":
+			c = fmt.Sprintf("CFetchFlagsBody %s", natList(o.Ps))
 		case "probe":
 			c = "CProbe"
 		case "search":
@@ -154,7 +156,7 @@ func (o Op) String() string {
 		s += fmt.Sprintf(" %v %s %v silent=%v", o.Ps, o.FOp, o.Flags, o.Silent)
 	case "copy", "move":
 		s += fmt.Sprintf(" %v m%d", o.Ps, o.Mb)
-	case "fetchbody":
+	case "fetchbody", "fetchflagsbody":
 		s += fmt.Sprintf(" %v", o.Ps)
 	}
 	return s
@@ -187,6 +189,7 @@ type World struct {
 	Remote   map[int]imap.MessageID // model msg id -> remote id
 	markerOf map[string]int
 	Conn     *hconn.Conn
+	Bulk     bool
 }
 
 func flagString(ids []int) string {
@@ -197,14 +200,18 @@ func flagString(ids []int) string {
 	return strings.Join(s, " ")
 }
 
-func Start(k, nmbox int) (*World, error) {
+func Start(k, nmbox int, bulk ...bool) (*World, error) {
 	verifhook.Reset()
 	verifhook.SetHold(func(int64) bool { return true })
-	s, err := srv.Start(srv.Options{IdleBulkTime: 0})
+	var bulkTime time.Duration
+	if len(bulk) > 0 && bulk[0] {
+		bulkTime = 60 * time.Second // responses produced while idling are sent, merged, when the IDLE ends
+	}
+	s, err := srv.Start(srv.Options{IdleBulkTime: bulkTime})
 	if err != nil {
 		return nil, err
 	}
-	w := &World{S: s, K: k, NMbox: nmbox, Remote: map[int]imap.MessageID{}, markerOf: map[string]int{}, Conn: s.Conn0()}
+	w := &World{S: s, K: k, NMbox: nmbox, Remote: map[int]imap.MessageID{}, markerOf: map[string]int{}, Conn: s.Conn0(), Bulk: bulkTime > 0}
 	setup, err := s.Login()
 	if err != nil {
 		return nil, err
@@ -327,7 +334,11 @@ func (w *World) Do(o Op) (StepObs, error) {
 		if err != nil {
 			return StepObs{}, err
 		}
-		// barrier: responses written by the idle sender goroutine may trail the tagged OK
+		// barrier: responses written by the idle sender goroutine may trail the tagged OK (with a bulk time they are
+		// only sent once the IDLE has ended)
+		if w.Bulk {
+			time.Sleep(120 * time.Millisecond)
+		}
 		r2, err := c.Cmd("CAPABILITY")
 		if err != nil {
 			return StepObs{}, err
@@ -368,6 +379,8 @@ func (w *World) Do(o Op) (StepObs, error) {
 		r, err = c.Cmd(fmt.Sprintf("MOVE %s m%d", psString(o.Ps), o.Mb))
 	case "fetchbody":
 		r, err = c.Cmd(fmt.Sprintf("FETCH %s (BODY[])", psString(o.Ps)))
+	case "fetchflagsbody":
+		r, err = c.Cmd(fmt.Sprintf("FETCH %s (FLAGS BODY[])", psString(o.Ps)))
 	case "probe":
 		probe = true
 		r, err = c.Cmd("UID FETCH 1:* (FLAGS)")
@@ -411,7 +424,7 @@ func (w *World) Do(o Op) (StepObs, error) {
 		raw = append(raw, l.Text)
 	}
 	raw = append(raw, r.Tag+" "+r.Status+" "+r.Text)
-	obs := StepObs{Out: convResp(imapc.Evs(r), probe, o.Cmd == "fetchbody"), Outcome: outcomeOf(r), Raw: raw}
+	obs := StepObs{Out: convResp(imapc.Evs(r), probe, o.Cmd == "fetchbody" || o.Cmd == "fetchflagsbody"), Outcome: outcomeOf(r), Raw: raw}
 	if o.Cmd == "select" {
 		// keep only the EXISTS line
 		var keep []Resp
